@@ -1,7 +1,7 @@
 (* FiltChainAddr.v — retrieval for paths with existence filters, from the path text: the path `$` steps returns exactly
    the values its steps reach, where a filter step [?(@ inner)] keeps, of the elements of an array (index order) or
    the members of an object (ascending key order), those from which the inner steps reach at least one value. *)
-From JP Require Import Peg Grammar Slice Text Tree Actions Json Eval WF Spec SortFacts EvalInv1 EvalInv4 EvalTop EndToEnd Codec KeyDefs KeyParse IdxParse SliceParse UnionParse WildParse RecParse ChainParse SpacePath FunParse AggParse FiltParse CmpParse CmpSpace NegFilt RootOp QueryParse FiltSpace QuerySpace FiltChain ChainAddr FunAddr AggAddr FiltAddr CmpAddr QueryAddr.
+From JP Require Import Peg Grammar Slice Text Tree Actions Json Eval WF Spec SortFacts EvalInv1 EvalInv4 EvalTop EndToEnd Codec KeyDefs KeyParse IdxParse SliceParse UnionParse WildParse RecParse ChainParse SpacePath FunParse AggParse FiltParse CmpParse CmpSpace NegFilt RootOp QueryParse FiltSpace QuerySpace QueryTree FiltChain ChainAddr FunAddr AggAddr FiltAddr CmpAddr QueryAddr.
 From Coq Require Import Lia.
 Open Scope list_scope.
 
@@ -30,6 +30,7 @@ Section FiltChainAddr.
     | FN i => navp (fun x => negb (reaches i x)) lv
     | FQ d => navp (dnf_test parse_float regex_match root (kids (snd lv)) d) lv
     | FQS _ d => navp (dnf_test parse_float regex_match root (kids (snd lv)) (unspace_dnf d)) lv
+    | FT t => navp (qt_test parse_float regex_match root (kids (snd lv)) t) lv
     end.
   Fixpoint nav_allf (root : value) (l : list fstep) (lv : list pstep * value) : list (list pstep * value) :=
     match l with [] => [lv] | x :: r => flat_map (nav_allf root r) (nav1f root x lv) end.
@@ -44,17 +45,18 @@ Section FiltChainAddr.
     | FN i => Node (neg_kind cfg i) b2 next
     | FQ d => Node (fq_kind cfg parse_float d) b2 next
     | FQS _ d => Node (fq_kind cfg parse_float (unspace_dnf d)) b2 next
+    | FT t => Node (ft_kind cfg parse_float t) b2 next
     end.
 
   Lemma sp_fseg x b1 b2 next root : forall p v, fstep_ok x = true -> small root -> small v ->
     sp (fseg x b1 b2 next) root (Some p, v) = flat_map (fwd b2 next root) (nav1f root x (p, v)).
   Proof.
-    induction x as [y|i|i o lit|i|d|y IH|i g0 a o b g1 lit|neg g0 gn i g1|g0' d']; intros p v Hs Hr Hsm.
+    induction x as [y|i|i o lit|i|d|y IH|i g0 a o b g1 lit|neg g0 gn i g1|g0' d'|t']; intros p v Hs Hr Hsm.
     6: { cbn [fstep_ok] in Hs. apply andb_true_iff in Hs. destruct Hs as [Hf Hs]. cbn [fseg nav1f fst snd].
          assert (E : sp (Node (KRec true true) b1 (OSome (fseg y b1 b2 next))) root (Some p, v) =
                      flat_map (fun cu => sp (fseg y b1 b2 next) root cu) (containers (Some p) v)).
          { cbn [Spec.sp fst snd]. apply flat_map_ext'. intros [l x]. cbn [snd].
-           destruct y as [y0|i|i o lit|i|d|y0|i g0 a o b g1 lit|neg g0 gn i g1|g0' d']; try discriminate Hf; cbn [fseg]; try (destruct neg); destruct x; reflexivity. }
+           destruct y as [y0|i|i o lit|i|d|y0|i g0 a o b g1 lit|neg g0 gn i g1|g0' d'|t']; try discriminate Hf; cbn [fseg]; try (destruct neg); destruct x; reflexivity. }
          rewrite E. rewrite flat_map_flat_map. apply flat_map_ext_in'. intros cu Hin.
          pose proof (containers_some v p Hsm) as Hc. rewrite Forall_forall in Hc. destruct (Hc cu Hin) as [[l Hl] Hsx].
          destruct cu as [ol x]. cbn [fst snd] in *. subst ol. unfold cu_loc. cbn [fst snd].
@@ -70,6 +72,7 @@ Section FiltChainAddr.
       apply (sp_cmp cfg ffun afun regex_match); assumption.
     - destruct neg; cbn [fes_kind]; [apply (sp_neg cfg ffun afun regex_match); assumption|apply (sp_filt cfg ffun afun regex_match); assumption].
     - apply (sp_fq cfg parse_float ffun afun regex_match); [apply unspace_dnf_ok|..]; assumption.
+    - apply (sp_ft cfg parse_float ffun afun regex_match); [apply (wf_leaves t' 2)|..]; assumption.
   Qed.
 
   Lemma navp_small h p v : small v -> Forall (fun lv => small (snd lv)) (navp h (p, v)).
@@ -97,7 +100,7 @@ Section FiltChainAddr.
   Qed.
   Lemma nav1f_small root x p v : small v -> Forall (fun lv => small (snd lv)) (nav1f root x (p, v)).
   Proof.
-    revert p v. induction x as [y|i|i o lit|i|d|y IH|i g0 a o b g1 lit|neg g0 gn i g1|g0' d']; intros p v Hsm; cbn [nav1f]; [apply nav1r_small|apply navf_small|apply navp_small|apply navp_small|apply navp_small| |apply navp_small|destruct neg; [apply navp_small|apply navf_small]|apply navp_small]; try exact Hsm.
+    revert p v. induction x as [y|i|i o lit|i|d|y IH|i g0 a o b g1 lit|neg g0 gn i g1|g0' d'|t']; intros p v Hsm; cbn [nav1f]; [apply nav1r_small|apply navf_small|apply navp_small|apply navp_small|apply navp_small| |apply navp_small|destruct neg; [apply navp_small|apply navf_small]|apply navp_small|apply navp_small]; try exact Hsm.
     cbn [fst snd]. apply Forall_forall. intros a Ha. apply in_flat_map in Ha. destruct Ha as [cu [Hcu Ha]].
     pose proof (containers_some v p Hsm) as Hc. rewrite Forall_forall in Hc. destruct (Hc cu Hcu) as [_ Hs].
     pose proof (IH (cu_loc cu) (snd cu) Hs) as H. rewrite Forall_forall in H. exact (H a Ha).
@@ -106,7 +109,7 @@ Section FiltChainAddr.
   Lemma fin_fpre x : forall tl, fstep_ok x = true ->
     exists b1 b2, fin (fpre_of cfg parse_float x ++ tl) = OSome (fseg x b1 b2 (fin tl)) /\ accessor b2 = cfg_accessor cfg.
   Proof.
-    destruct x as [[s|s]|i|i o lit|i|d|y|i g0 a o b g1 lit|neg g0 gn i g1|g0' d']; intros tl Hok; cbn [fpre_of rstep_pre app fin fst snd fseg ChainAddr.seg].
+    destruct x as [[s|s]|i|i o lit|i|d|y|i g0 a o b g1 lit|neg g0 gn i g1|g0' d'|t']; intros tl Hok; cbn [fpre_of rstep_pre app fin fst snd fseg ChainAddr.seg].
     - eexists (pre_basic cfg s), _. split; reflexivity.
     - eexists _, _. split; [reflexivity|]. destruct s as [q k|k|ds|[|]|sa sb sc|u us]; reflexivity.
     - eexists (filt_basic cfg i), _. split; reflexivity.
@@ -114,9 +117,10 @@ Section FiltChainAddr.
     - eexists (filt_basic cfg i), _. split; reflexivity.
     - eexists (fq_basic cfg d), _. split; reflexivity.
     - cbn [fstep_ok] in Hok. apply andb_true_iff in Hok. destruct Hok as [Hf _].
-      destruct y as [y0|i|i o lit|i|d|y0|i g0 a o b g1 lit|neg g0 gn i g1|g0' d']; try discriminate Hf; cbn [fpre_of app fin fst snd fseg]; eexists _, _; (split; reflexivity).
+      destruct y as [y0|i|i o lit|i|d|y0|i g0 a o b g1 lit|neg g0 gn i g1|g0' d'|t']; try discriminate Hf; cbn [fpre_of app fin fst snd fseg]; eexists _, _; (split; reflexivity).
     - eexists (filt_basic cfg i), _. split; reflexivity.
     - eexists (filt_basic cfg i), _. split; reflexivity.
+    - eexists (filt_basic cfg []), _. split; reflexivity.
     - eexists (filt_basic cfg []), _. split; reflexivity.
   Qed.
   Lemma fin_fpres_f x r : fstep_ok x = true ->
@@ -125,7 +129,7 @@ Section FiltChainAddr.
   Lemma fchain_node_seg x r : fstep_ok x = true ->
     exists b1 b2, fchain_node cfg parse_float (x :: r) = fseg x b1 b2 (fin (fpres cfg parse_float r)) /\ accessor b2 = cfg_accessor cfg.
   Proof.
-    intros Hok. unfold fchain_node, node_of, fpres. cbn [flat_map]. destruct x as [[s|s]|i|i o lit|i|d|y|i g0 a o b g1 lit|neg g0 gn i g1|g0' d']; cbn [fpre_of rstep_pre app fin fst snd fseg ChainAddr.seg].
+    intros Hok. unfold fchain_node, node_of, fpres. cbn [flat_map]. destruct x as [[s|s]|i|i o lit|i|d|y|i g0 a o b g1 lit|neg g0 gn i g1|g0' d'|t']; cbn [fpre_of rstep_pre app fin fst snd fseg ChainAddr.seg].
     - eexists (pre_basic cfg s), _. split; reflexivity.
     - eexists _, _. split; [reflexivity|]. destruct s as [q k|k|ds|[|]|sa sb sc|u us]; reflexivity.
     - eexists (filt_basic cfg i), _. split; reflexivity.
@@ -133,9 +137,10 @@ Section FiltChainAddr.
     - eexists (filt_basic cfg i), _. split; reflexivity.
     - eexists (fq_basic cfg d), _. split; reflexivity.
     - cbn [fstep_ok] in Hok. apply andb_true_iff in Hok. destruct Hok as [Hf _].
-      destruct y as [y0|i|i o lit|i|d|y0|i g0 a o b g1 lit|neg g0 gn i g1|g0' d']; try discriminate Hf; cbn [fpre_of app fin fst snd fseg]; eexists _, _; (split; reflexivity).
+      destruct y as [y0|i|i o lit|i|d|y0|i g0 a o b g1 lit|neg g0 gn i g1|g0' d'|t']; try discriminate Hf; cbn [fpre_of app fin fst snd fseg]; eexists _, _; (split; reflexivity).
     - eexists (filt_basic cfg i), _. split; reflexivity.
     - eexists (filt_basic cfg i), _. split; reflexivity.
+    - eexists (filt_basic cfg []), _. split; reflexivity.
     - eexists (filt_basic cfg []), _. split; reflexivity.
   Qed.
 
@@ -191,13 +196,22 @@ Section FiltChainAddr.
 
   (* steps whose filters mention the document root nowhere select the same whatever the root is *)
   Definition bq_rootfree (b : bq) : bool := match b with BRE _ | BRN _ | BCR _ _ _ | BPQ _ _ _ => false | _ => true end.
-  Fixpoint fstep_rootfree (x : fstep) : bool := match x with FQ d => forallb (forallb bq_rootfree) d | FQS _ d => forallb (forallb bq_rootfree) (unspace_dnf d) | FR y => fstep_rootfree y | _ => true end.
+  Fixpoint fstep_rootfree (x : fstep) : bool := match x with FQ d => forallb (forallb bq_rootfree) d | FQS _ d => forallb (forallb bq_rootfree) (unspace_dnf d) | FT t => qt_leaves bq_rootfree t | FR y => fstep_rootfree y | _ => true end.
   Lemma dnf_test_rootfree root root' d : forallb (forallb bq_rootfree) d = true ->
     forall vals v, dnf_test parse_float regex_match root vals d v = dnf_test parse_float regex_match root' vals d v.
   Proof.
     intros H vals v. unfold dnf_test. induction d as [|c d IH]; [reflexivity|]. cbn [forallb] in H. apply andb_true_iff in H. destruct H as [H1 H2].
     cbn [existsb]. rewrite (IH H2). f_equal. clear -H1. induction c as [|b c IH]; [reflexivity|]. cbn [forallb] in H1. apply andb_true_iff in H1. destruct H1 as [Hb Hc].
     cbn [forallb]. rewrite (IH Hc). f_equal. destruct b; try discriminate Hb; reflexivity.
+  Qed.
+  Lemma qt_test_rootfree root root' t : qt_leaves bq_rootfree t = true ->
+    forall vals v, qt_test parse_float regex_match root vals t v = qt_test parse_float regex_match root' vals t v.
+  Proof.
+    intros H vals v. induction t as [b|q IH|l IHl r IHr|l IHl r IHr]; cbn [qt_leaves qt_test] in *.
+    - destruct b; try discriminate H; reflexivity.
+    - apply IH. exact H.
+    - apply andb_true_iff in H. destruct H as [Hl Hr]. rewrite (IHl Hl), (IHr Hr). reflexivity.
+    - apply andb_true_iff in H. destruct H as [Hl Hr]. rewrite (IHl Hl), (IHr Hr). reflexivity.
   Qed.
   Lemma navp_ext' h h' lv : (forall v, h v = h' v) -> navp h lv = navp h' lv.
   Proof.
@@ -207,10 +221,11 @@ Section FiltChainAddr.
   Qed.
   Lemma nav1f_rootfree root root' x : forall lv, fstep_rootfree x = true -> nav1f root x lv = nav1f root' x lv.
   Proof.
-    induction x as [y|i|i o lit|i|d|y IH|i g0 a o b g1 lit|neg g0 gn i g1|g0' d']; intros lv H; cbn [nav1f]; try reflexivity.
+    induction x as [y|i|i o lit|i|d|y IH|i g0 a o b g1 lit|neg g0 gn i g1|g0' d'|t']; intros lv H; cbn [nav1f]; try reflexivity.
     2: { cbn [fstep_rootfree] in H. apply flat_map_ext'. intros cu. apply IH. exact H. }
     - cbn [fstep_rootfree] in H. apply navp_ext'. intros v. apply dnf_test_rootfree. exact H.
     - cbn [fstep_rootfree] in H. apply navp_ext'. intros v. apply dnf_test_rootfree. exact H.
+    - cbn [fstep_rootfree] in H. apply navp_ext'. intros v. apply qt_test_rootfree. exact H.
   Qed.
   Lemma nav_allf_rootfree root root' q : forallb fstep_rootfree q = true -> forall lv, nav_allf root q lv = nav_allf root' q lv.
   Proof.
